@@ -15,7 +15,7 @@ From PV Require Import Regex Base LexTables NodeModel ParserBase ParserDecl Pars
         out+=f"(* {comment} *)\nTheorem {name} :\n{stmt}\nProof. exact ex_{name}. Qed.\nPrint Assumptions {name}.\n\n"
     out+=extra
     open(f'/verif/coq/props/{prop}.v','w').write(out)
-mk("C03","declaration ASTs encode C declarator semantics for every declared name","DeclExamples"," AstSpec DeclProofs",
+mk("C03","declaration ASTs encode C declarator semantics for every declared name","DeclExamples"," AstSpec DeclProofs DeclRefine",
 '''(* _type_modify_decl splices the modifier chain between the declarator's own chain and its TypeDecl,
    for a declarator chain and a modifier chain (pointer prefix, array / function suffix) of ANY length *)
 Theorem C03_modify_splice : forall (P: Type) ld fs co lm fuel s, lm <> [] -> (length ld + length lm <= fuel)%nat ->
@@ -23,6 +23,31 @@ Theorem C03_modify_splice : forall (P: Type) ld fs co lm fuel s, lm <> [] -> (le
   = Ok (build P (ld ++ lm) (typedecl P fs co), s).
 Proof. exact modify_splice. Qed.
 Print Assumptions C03_modify_splice.
+
+(* whenever _type_modify_decl returns at all, it returns that splice - no bound on the chain lengths *)
+Theorem C03_modify_ok : forall (P: Type) fuel ld fs co lm (s: pstate P) r s', lm <> [] ->
+  type_modify_decl P fuel (build P ld (typedecl P fs co)) (build P lm VNone) s = Ok (r, s') ->
+  r = build P (ld ++ lm) (typedecl P fs co) /\\ s' = s.
+Proof. exact modify_ok. Qed.
+Print Assumptions C03_modify_ok.
+
+(* the declarator productions of the whole-parser model (pointer_opt direct-declarator, ( declarator ),
+   [..] and (..) suffixes; ParserMain.p_declarator_kind / p_direct_declarator / p_decl_suffixes), for every
+   token stream, state and fuel: the node returned is the chain of the derivations C99 6.7.5.1-3 assigns to the
+   declarator D that was read (RunK: which tokens and sub-productions, in which order), applied from the
+   identifier outwards - suffixes left to right, then the pointer prefix with the star nearest the
+   identifier outermost, a parenthesised declarator first - ending in the TypeDecl made from the identifier *)
+Theorem C03_declarator_refines : forall (P: Type) f kid ap s r s',
+  p_declarator_kind P f kid ap s = Ok (r, s') ->
+  exists D, RunK P kid ap s D s' /\\ r = build P (derivs P D) (leaf P D).
+Proof. exact declarator_refines. Qed.
+Print Assumptions C03_declarator_refines.
+
+(* `* q1 * q2 ... *qn`: the pointer chain has the LAST star outermost (pointer nearest the identifier) *)
+Theorem C03_pointer_order : forall (P: Type) f (s s': pstate P) p, p_pointer P f s = Ok (Some p, s') ->
+  exists stars, stars <> [] /\\ p_pointer_stars P f s = Ok (stars, s') /\\ p = build P (rev (map (mkptr P) stars)) VNone.
+Proof. exact p_pointer_ok. Qed.
+Print Assumptions C03_pointer_order.
 ''')
 mk("C05","statement ASTs mirror C's statement nesting and source order","StmtExamples"," AstSpec StmtProofs ElseProofs",
 '''(* fix_switch_cases: for a switch body of ANY length whose label chains have ANY depth, the regrouped
